@@ -166,6 +166,20 @@ func (p *Prog) DroppedErrors(fn *Fn, want func(name string, call *ast.CallExpr) 
 				}
 			},
 		}
+		// the outcome of a nil test is remembered in the register (the fact itself dies with the variable's scope)
+		hooks.Branch = func(x *Explorer, cond ast.Expr, val bool, st *State) {
+			for c, o := range byStmtCall {
+				reg := fmt.Sprintf("pend:%d", c.Pos())
+				if st.Regs[reg] != "live" && st.Regs[reg] != "nonnil" {
+					continue
+				}
+				if testedNil(x, st, o) {
+					st.Regs[reg] = "nil"
+				} else if testedNonNil(x, st, o) {
+					st.Regs[reg] = "nonnil"
+				}
+			}
+		}
 		x := p.NewExplorer(fn, hooks)
 		x.Run(nil)
 		for _, ex := range x.Exits {
@@ -174,11 +188,14 @@ func (p *Prog) DroppedErrors(fn *Fn, want func(name string, call *ast.CallExpr) 
 			}
 			for c, o := range byStmtCall {
 				reg := fmt.Sprintf("pend:%d", c.Pos())
-				if ex.State.Regs[reg] == "" {
+				if ex.State.Regs[reg] == "" || ex.State.Regs[reg] == "nil" {
 					continue
 				}
 				if testedNil(x, ex.State, o) {
 					continue // proven nil on this path
+				}
+				if errIdx < 0 && (ex.State.Regs[reg] == "nonnil" || testedNonNil(x, ex.State, o)) {
+					continue // the function has no error result: the failure was tested and handled locally
 				}
 				// the error is (possibly) non-nil here: the function must return it
 				returned := false
